@@ -2,7 +2,7 @@
 # tools/confirm_seed.sh <ID> <worktree>  -- confirm a seeded change ourselves and store it under seeded/<ID>/
 # 1. repo suite (without the demo) passes with the change  2. demo fails with the change  3. demo passes without it
 ID="$1"; WT="$2"; ROOT="$(cd "$(dirname "$0")/.." && pwd)"
-OUT="$ROOT/seeded/$ID"; mkdir -p "$OUT"
+OUT="$ROOT/seeded/${SEED_NAME:-$ID}"; mkdir -p "$OUT"
 cd "$WT" || exit 2
 git diff -- src > "$OUT/patch.diff"
 cp tests/seed_demo.rs "$OUT/seed_demo.rs"; cp SEED_NOTES.md "$OUT/SEED_NOTES.md" 2>/dev/null
